@@ -179,6 +179,13 @@ pub fn run() {
 			}
 		});
 	}
+	for (i, a) in universe(cx.quick()).into_iter().enumerate() {
+		let mut p = P { comp: (i % 3) as u8, hash: i % 2 == 0, class: "universe", ..Default::default() };
+		if i % 5 == 0 {
+			crate::inc::set_sched(&mut p, &crate::env::Sched::Chunk(3));
+		}
+		cases.push((a, p));
+	}
 	for (i, a) in long_replays(cx.quick()).into_iter().enumerate() {
 		if a.frames.len() > 1000 && a.frames[0].items > 100 {
 			continue; // the 67,100-item game goes through C01/C04 only
